@@ -253,7 +253,11 @@ class Engine:
             _f = z3.Const('_pf', smt.Fn)
             _x = z3.Const('_px', smt.Obj)
             c = hier.const('_ItemsNotDefined')
+            si = hier.const('StopIteration')
             self.base_axioms += [
+                # A-PEP479: an example never fails with StopIteration (inside the generators that
+                # implement iteration python turns it into RuntimeError)
+                z3.ForAll([_d, _i], z3.Not(smt.SUB(smt.CLS(smt.EXC(_d, _i)), si)), patterns=[smt.EXC(_d, _i)]),
                 z3.ForAll([_d, _i], z3.Not(smt.SUB(smt.CLS(smt.EXC(_d, _i)), c)), patterns=[smt.EXC(_d, _i)]),
                 z3.ForAll([_f, _x], z3.Not(smt.SUB(smt.CLS(smt.APP_E(_f, _x)), c)), patterns=[smt.APP_E(_f, _x)])]
 
@@ -511,7 +515,10 @@ class Engine:
                     st2.ghost['writes'] = st2.ghost['writes'] + [(recv.oid, target.attr)]
                     res.append(st2)
                 else:
-                    raise Unsupported('attribute store on %r' % (recv,))
+                    h = self.ctx_hook('setattr_hook', st2, recv, target.attr, v)
+                    if h is None:
+                        raise Unsupported('attribute store on %r' % (recv,))
+                    res.extend(h)
             return res
         if isinstance(target, ast.Subscript):
             res = []
@@ -725,12 +732,15 @@ class Engine:
             return self._stream_descr(it.view)
         if isinstance(it, GenStreamV):
             return it.length, it.elem
-        if isinstance(it, ObjV):
+        if isinstance(it, (ObjV, OpaqueV)):
             h = self.ctx_hook('iter_obj_descr', st, it)
             if h is not None:
                 return h
         if isinstance(it, IterV):
-            raise Unsupported('for-loop over an explicit iterator')
+            cell = st.heap[it.oid]
+            if z3.is_true(z3.simplify(cell['pos'].t == 0)) and z3.is_false(z3.simplify(cell['done'].t)):
+                return self._stream_descr(cell['stream'].view)     # a fresh iterator: its whole stream
+            raise Unsupported('for-loop over a partly consumed iterator')
         raise Unsupported('iteration over %r' % (it,))
 
     def _stream_descr(self, sv):
@@ -822,6 +832,11 @@ class Engine:
                 hav.env[nme] = nv
         for fld in sorted(self_fields):
             if self.self_oid is not None and fld in hav.heap.get(self.self_oid, {}):
+                cur = hav.heap[self.self_oid][fld]
+                if isinstance(cur, CellListV):
+                    hav.heap[cur.oid]['items'] = [fresh_like(x, '%s_%d' % (fld, ix))
+                                                  for ix, x in enumerate(hav.heap[cur.oid]['items'])]
+                    continue
                 nv = fresh_like(hav.heap[self.self_oid][fld], 'self_' + fld)
                 if nv is None:
                     raise Unsupported('cannot havoc field %s' % fld)
@@ -972,7 +987,7 @@ class Engine:
     BUILTINS = {'len', 'isinstance', 'range', 'enumerate', 'zip', 'map', 'iter', 'next', 'tuple', 'list', 'set',
                 'sorted', 'all', 'any', 'sum', 'int', 'float', 'callable', 'hasattr', 'repr', 'str', 'super',
                 'object', 'dict', 'max', 'min', 'type', 'getattr', 'slice', 'bytes', 'memoryview', 'id',
-                'print', 'abs', 'bool', 'open'}
+                'print', 'abs', 'bool', 'open', 'staticmethod', 'reversed', 'frozenset'}
 
     def global_name(self, name, st):
         if name in self.GLOBAL_MODULES:
@@ -1019,6 +1034,9 @@ class Engine:
             raise Unsupported('attribute %s of %r' % (attr, recv))
         if isinstance(recv, DSRefV):
             view = views.AbsView(recv.t)
+            h2 = self.ctx_hook('ds_getattr', st, recv, attr)
+            if h2 is not None:
+                return h2
             if attr == 'indexable':
                 return [(st, BoolV(view.idx))]
             if attr == 'ordered':
@@ -1336,7 +1354,8 @@ class Engine:
             return self.ds_getitem(view, args[0], st)
         if name == '__iter__':
             wk = kwargs.get('with_key', args[0] if args else BoolV(False))
-            return self.ds_iter(view, wk, st)
+            # a generator object: it is its own iterator (next() works on it)
+            return [(s2, self.make_iter(s2, v)) for s2, v in self.ds_iter(view, wk, st)]
         if name == 'copy':
             return self.ds_copy(recv, view, args, kwargs, st)
         raise Unsupported('dataset method %s' % name)
@@ -1821,6 +1840,8 @@ class Engine:
         if isinstance(x, (DSRefV, InstV)):
             view = self.view_of(x, st)
             return [(s, self.make_iter(s, v)) for s, v in self.ds_iter(view, BoolV(False), st)]
+        if isinstance(x, IterV):
+            return [(st, x)]
         raise Unsupported('iter(%r)' % (x,))
 
     def make_iter(self, st, stream):
